@@ -286,6 +286,9 @@ func (fr *Frame) ringCall(st *State, fn *ssa.Function, args []Value) (Value, boo
 			}
 		}
 	}
+	if v.isModule(rt) {
+		return fr.moduleCall(st, fn, rt, args)
+	}
 	if !v.isRing(rt) {
 		return nil, false
 	}
@@ -485,3 +488,103 @@ func (v *Verifier) ringInv(x *Term) *Term {
 }
 
 var bigMaxLen = big.NewInt(1 << 40)
+
+// ---------- module layer ----------
+
+// moduleCall interprets the methods of a point type at the module layer: the values are elements of an abstract
+// abelian group written additively (integers, by Z-lifting: an identity that is linear in the point indeterminates
+// and holds for all integer values of them holds in every abelian group). The coordinate formulas behind these
+// methods are the subject of C02; here they are ASSUMED to implement the group law (recorded per method).
+func (fr *Frame) moduleCall(st *State, fn *ssa.Function, rt types.Type, args []Value) (Value, bool) {
+	v := fr.v
+	F := v.F
+	ld := func(i int) *Term {
+		switch a := args[i].(type) {
+		case *Term:
+			return a
+		default:
+			t, ok := fr.load(st, a).(*Term)
+			if !ok {
+				unsup("module operand is not scalar")
+			}
+			return t
+		}
+	}
+	used := func() {
+		v.ringUsed[v.funcKey(fn)] = true
+		v.assume("module layer: " + v.funcKey(fn) + " is interpreted as the group operation its name and documentation state (the coordinate formulas are proved against the chord-and-tangent law under C02 where the function is under contract there)")
+	}
+	set := func(t *Term) (Value, bool) {
+		fr.store(st, args[0], t, nil)
+		used()
+		return args[0], true
+	}
+	isMod := func(i int) bool {
+		if i >= len(fn.Params) {
+			return false
+		}
+		t := fn.Params[i].Type()
+		if p, ok := t.Underlying().(*types.Pointer); ok {
+			t = p.Elem()
+		}
+		return v.isModule(t)
+	}
+	switch fn.Name() {
+	case "Set", "FromAffine", "FromJacobian", "fromJacExtended", "unsafeFromJacExtended", "FromProj", "FromExtended", "FromAffineToProj", "fromProj":
+		// copies and conversions between coordinate systems denote the same group element
+		if len(args) == 2 && isMod(1) {
+			return set(ld(1))
+		}
+	case "Neg":
+		if len(args) == 2 && isMod(1) {
+			return set(F.Neg(ld(1)))
+		}
+	case "Double", "DoubleMixed":
+		if len(args) == 2 && isMod(1) {
+			return set(F.Mul(F.I64(2), ld(1)))
+		}
+	case "DoubleAssign":
+		if len(args) == 1 {
+			return set(F.Mul(F.I64(2), ld(0)))
+		}
+	case "AddAssign", "AddMixed", "addMixed", "add":
+		if len(args) == 2 && isMod(1) {
+			return set(F.Add(ld(0), ld(1)))
+		}
+	case "SubAssign", "SubMixed", "subMixed":
+		if len(args) == 2 && isMod(1) {
+			return set(F.Sub(ld(0), ld(1)))
+		}
+	case "Add", "MixedAdd":
+		if len(args) == 3 && isMod(1) && isMod(2) {
+			return set(F.Add(ld(1), ld(2)))
+		}
+	case "Sub":
+		if len(args) == 3 && isMod(1) && isMod(2) {
+			return set(F.Sub(ld(1), ld(2)))
+		}
+	case "phi":
+		// the efficiently computable endomorphism acts on the prime-order subgroup as multiplication by a fixed
+		// eigenvalue (assumed: curve theory); the eigenvalue is a symbolic constant of the point type
+		if len(args) == 2 && isMod(1) {
+			lam := F.Var("module.lambda."+recvName(rt), SInt)
+			v.assume("module layer: phi of " + recvName(rt) + " acts on the operands as multiplication by a fixed integer module.lambda." + recvName(rt) + " (endomorphism eigenvalue: curve theory, not proved)")
+			return set(F.Mul(lam, ld(1)))
+		}
+	case "setInfinity", "SetInfinity":
+		if len(args) == 1 {
+			return set(F.I64(0))
+		}
+	case "IsInfinity", "IsZero":
+		if len(args) == 1 {
+			used()
+			return v.ringIsZero(ld(0)), true
+		}
+	case "Equal":
+		if len(args) == 2 && isMod(1) {
+			used()
+			return v.ringEq(ld(0), ld(1)), true
+		}
+	}
+	return nil, false
+}
